@@ -115,8 +115,6 @@ func (d *Do) appendParameterBeforeTypeCalculate(
 			return blockParamaters
 		}
 
-		tmpParameters := [20]*base.T{}
-
 		if len(lastEvaluatedT.UnifyVariants().GetVariants()) == 0 {
 			blockParamaters =
 				append(blockParamaters, *lastEvaluatedT.UnifyVariants())
@@ -129,6 +127,21 @@ func (d *Do) appendParameterBeforeTypeCalculate(
 		if lastEvaluatedT.IsArrayType() {
 			targetRangeT = lastEvaluatedT.GetVariants()
 		}
+
+		// one slot per element position: as many as the receiver has variants or
+		// its longest element array has items
+		slotCount := len(targetRangeT)
+		for _, variant := range targetRangeT {
+			if variant.GetType() == base.ARRAY && len(variant.GetVariants()) > slotCount {
+				slotCount = len(variant.GetVariants())
+			}
+		}
+
+		if slotCount == 0 {
+			slotCount = 1
+		}
+
+		tmpParameters := make([]*base.T, slotCount)
 
 		for idx, variant := range targetRangeT {
 			switch variant.GetType() {
